@@ -20,12 +20,12 @@ pub static DEF: PropDef = PropDef {
     id: "C06",
     level: "exploration",
     engine: "ingest",
-    rule: "one run = a real Ingester (WAL on or off, object-store or in-memory catalog, flush_row_count 2..50 or (one run in five) a size threshold of 300 B..6 KB, flush_interval 0.2..5 s, sometimes a tiny max_buffer_size) with 2..4 concurrent writer tasks issuing 3..8 writes each of 1..50-row batches (one write in seven re-sends the previous batch unchanged) over 7 schema variants (both timestamp types, three that differ from the first one only in a column's nullability, in column order, or in schema metadata, nullable label, i64/u64/f64 extremes incl. NaN/-0/inf/subnormal, near-extreme timestamps) plus the flush timer and two subscribers; no storage faults; requests go through the real Arrow-Flight and OTLP ingest handlers or straight to Ingester::write; a third of the runs drop one handler future in five at a seeded point (client disconnect; that request's rows may or may not be stored, everybody else's must be); every object-store request and the post-WAL-append pause point is a seeded scheduling point; distinct = distinct grant sequence; non-trivial = completed AND writers/flushes interleaved",
+    rule: "one run = a real Ingester (WAL on or off, object-store or in-memory catalog, flush_row_count 2..50 or (one run in five) a size threshold of 300 B..6 KB, flush_interval 0.2..5 s, sometimes a tiny max_buffer_size) with 2..4 concurrent writer tasks issuing 3..8 writes each of 1..50-row batches (thorough tier: 16 extra runs whose first write has 520 000..600 000 rows; one write in seven re-sends the previous batch unchanged) over 7 schema variants (both timestamp types, three that differ from the first one only in a column's nullability, in column order, or in schema metadata, nullable label, i64/u64/f64 extremes incl. NaN/-0/inf/subnormal, near-extreme timestamps) plus the flush timer and two subscribers; no storage faults; requests go through the real Arrow-Flight and OTLP ingest handlers or straight to Ingester::write; a third of the runs drop one handler future in five at a seeded point (client disconnect; that request's rows may or may not be stored, everybody else's must be); every object-store request and the post-WAL-append pause point is a seeded scheduling point; distinct = distinct grant sequence; non-trivial = completed AND writers/flushes interleaved",
     quick_runs: 4000,
     thorough_runs: 60_000,
-    run_cap_ms: 30_000,
+    run_cap_ms: 120_000,
     scen,
-    extra_phase: None,
+    extra_phase: Some(big_flush_phase),
     real: &["Ingester (write, buffer, threshold + timer flush, ParquetWriter, broadcast + topic broadcast)", "api::ingest::flight_ingest::FlightIngestService::process_stream, api::ingest::otlp::OtlpReceiver::ingest (request handlers)", "WriteAheadLog on the shim disk", "ObjectStoreMetadataClient / LocalMetadataClient"],
     stub: &["S3 = InMemory behind SimStore", "disk = tmpfs shim", "clock/entropy interposed"],
     assumptions: &["chunk time spans stay below 30 days (registration cost is linear in hour buckets spanned)", "subscribers keep up (channel capacity 1024 is never reached)"],
@@ -124,6 +124,21 @@ fn scen(spec: RunSpec) -> ScenFut {
                 let variant = if sim::w(4) == 3 { [0u32, 1, 2, 3, 5, 6, 7][sim::w(7) as usize] } else { base_variant };
                 let nrows = [1usize, 1, 2, 3, 5, 50][sim::w(6) as usize];
                 let extreme_vals = sim::w(4) == 3;
+                // thorough-only phase: the very first write of the run is a scrape of more than half a million rows
+                // (one flush group far beyond anything a per-chunk bound might assume); generated arithmetically
+                if spec.variant == "bigflush" && plans.is_empty() && ops.is_empty() {
+                    sim::probe("flush-of-more-than-500000-rows");
+                    let n = 520_000 + 1000 * sim::w(80) as usize;
+                    let rows: Vec<Row> = (0..n)
+                        .map(|i| {
+                            let id = gen.next_id;
+                            gen.next_id += 1;
+                            Row { id, ts: now - HOUR + i as i64 * 1000, metric: ["cpu", "mem", "disk"][i % 3].to_string(), host: None, vi: Some((i % 11) as i64), vf: None, vu: None }
+                        })
+                        .collect();
+                    ops.push((0, rows, 0, None));
+                    continue;
+                }
                 let rows: Vec<Row> = (0..nrows)
                     .map(|_| {
                         let ts = if extreme_ts {
@@ -338,4 +353,13 @@ fn scen(spec: RunSpec) -> ScenFut {
             disk::cleanup_scratch();
         }
     })
+}
+
+/// One flush group of more than 500 000 rows: thorough tier only (a run costs seconds, not milliseconds).
+fn big_flush_phase(co: &mut crate::core::coord::Coord) {
+    if co.tier == "quick" {
+        return;
+    }
+    let specs: Vec<RunSpec> = (0..16u64).map(|i| co.spec(7_000_000 + i, "bigflush")).collect();
+    co.run_batch(specs, "flush-of-more-than-500000-rows");
 }
